@@ -116,6 +116,8 @@ PROPS["C10"] = {
     "level": "proof",
     "verus": [],
     "kani": ["tfm_raw"],
+    "witness_always": ["tfm_files"],
+    "witness_bound": {"tfm_files": "whole files through the real tftopl / pltotf algorithms: 8000 (thorough: 60000) generated .tfm files (half well-formed over small section sizes with lig/kern programs, lists, extensible recipes; half noisy / truncated / bit-flipped) and ~3 property-list texts per file (the printed list, a truncation, a one-character mutation); C10: no panic in either direction; C11: every warning-free file converts to a canonical file on which a further round trip is the byte-for-byte identity without warnings and which describes the same font (PL equal up to header defaults and unreachable lig/kern instructions)"},
     "unverified_callers": [
         "validate_and_fix (480 lines over HashMap<Char,..>), from_raw_file iterator glue, Header::deserialize string handling",
         "the whole PL text side: pl/cst.rs, pl/ast.rs, From<pl::File> for File, serialize_char_infos - 'arbitrary text never panics' and 'PL->TFM output is a readable TFM' are NOT decided",
@@ -126,6 +128,8 @@ PROPS["C11"] = {
     "level": "proof",
     "verus": [],
     "kani": ["tfm_raw"],
+    "witness_always": ["tfm_files"],
+    "witness_bound": {"tfm_files": "whole files through the real tftopl / pltotf algorithms: 8000 (thorough: 60000) generated .tfm files (half well-formed over small section sizes with lig/kern programs, lists, extensible recipes; half noisy / truncated / bit-flipped) and ~3 property-list texts per file (the printed list, a truncation, a one-character mutation); C10: no panic in either direction; C11: every warning-free file converts to a canonical file on which a further round trip is the byte-for-byte identity without warnings and which describes the same font (PL equal up to header defaults and unreachable lig/kern instructions)"},
     "unverified_callers": [
         "WORD LEVEL ONLY: pl::File::display / from_pl_source_code (text), From<pl::File> for File and back, pack_entrypoints/unpack_entrypoint, table compression - the composition to a byte-for-byte fixed point is NOT decided",
     ],
